@@ -510,7 +510,18 @@ func runC42(c *Ctx) {
 		gd := D(poolGet[0].Common().Args[0])
 		pd := D(poolPut[0].Common().Args[0])
 		c.Check("C42.R1", poolGet[0], f.get+" indexes its pool with the ceiling log2 of the requested length", strings.Contains(gd, f.pools+"[") && strings.Contains(gd, f.ceil+"("), "a pool class below the request hands out an undersized buffer (index: "+gd+")")
-		c.Check("C42.R1", poolPut[0], f.put+" files a buffer under the floor log2 of its capacity", strings.Contains(pd, f.pools+"[") && strings.Contains(pd, f.floor+"(") && strings.Contains(pd, "cap("), "filing a buffer one class too high hands it out later for a larger request than it can hold (index: "+pd+")")
+		// on every path (every phi edge of the index) the class is computed from the current capacity
+		floorOfCap := func(v ssa.Value) bool {
+			d := D(v)
+			return strings.Contains(d, f.floor+"(") && strings.Contains(d, "cap(") && !strings.Contains(d, "φ(")
+		}
+		putIdxOK := strings.Contains(pd, f.pools+"[")
+		if ia, ok := poolPut[0].Common().Args[0].(*ssa.IndexAddr); ok {
+			putIdxOK = putIdxOK && everyPhiEdge(ia.Index, floorOfCap, 0)
+		} else {
+			putIdxOK = putIdxOK && strings.Contains(pd, f.floor+"(") && strings.Contains(pd, "cap(") && !strings.Contains(pd, "φ(")
+		}
+		c.Check("C42.R1", poolPut[0], f.put+" files a buffer under the floor log2 of its capacity", putIdxOK, "filing a buffer one class too high hands it out later for a larger request than it can hold; the class must come from the capacity the buffer has now, on every path (index: "+pd+")")
 		// reset before Put
 		reset := false
 		EachInstr(put, func(in ssa.Instruction) {
